@@ -349,8 +349,15 @@ def stack(tensors, dim=0):
         if t.shape != ref.shape:
             raise PyExc('RuntimeError', 'stack expects each tensor to be equal size, but got %s and %s'
                         % (list(ref.shape), list(t.shape)))
+    ts = [ref]
+    for t in tensors[1:]:
         if t.dims != ref.dims:
-            raise AnalysisError('unsupported', 'stack of tensors with different dim typing')
+            r = retag_dims(t, ref.dims) if t.is_zero() else t.retag_units(ref.dims)
+            if r is None:
+                raise AnalysisError('unsupported', 'stack of tensors with different dim typing')
+            t = r
+        ts.append(t)
+    tensors = ts
     ax = _e_axis(ref.dims, d)
     cells = np.stack([t.cells for t in tensors], axis=ax)
     dims = list(ref.dims)
